@@ -1033,3 +1033,82 @@ pub fn literal_texts(pieces: &[RPiece], out: &mut Vec<String>) {
     }
     flush(&mut cur, out);
 }
+
+// ------------------------------------------------------------------------------------------
+// diagnostics (C07)
+
+#[derive(Clone, Debug, PartialEq, Eq, PartialOrd, Ord)]
+pub enum WarnKind {
+    Missing,
+    Surplus,
+}
+
+/// (kind, locale, key path as the library prints it: `ns::a.b`)
+pub type ModelWarning = (WarnKind, String, String);
+
+fn path_string(ns: Option<&str>, path: &[String]) -> String {
+    match ns {
+        Some(ns) => format!("{}::{}", ns, path.join(".")),
+        None => path.join("."),
+    }
+}
+
+/// Missing / surplus key diagnostics the documentation requires; `Err` = kind flip (a group in one
+/// locale, a value in the other), which must be a load error
+pub fn model_key_warnings(p: &Project, suppress: bool) -> Result<Vec<ModelWarning>, ModelErr> {
+    fn walk(
+        def: &Obj,
+        other: &Obj,
+        ns: Option<&str>,
+        loc: &str,
+        implicit: bool,
+        suppress: bool,
+        prefix: &mut Vec<String>,
+        out: &mut Vec<ModelWarning>,
+    ) -> Result<(), ModelErr> {
+        for (k, dv) in def {
+            prefix.push(k.clone());
+            match obj_get(other, k) {
+                None => {
+                    if implicit {
+                        out.push((WarnKind::Missing, loc.to_string(), path_string(ns, prefix)));
+                    }
+                }
+                Some(Value::Null) => {}
+                Some(ov) => match (dv, ov) {
+                    (Value::Sub(d), Value::Sub(o)) => walk(d, o, ns, loc, implicit, suppress, prefix, out)?,
+                    (Value::Sub(_), _) | (_, Value::Sub(_)) => {
+                        return Err(ModelErr {
+                            kind: ErrKind::Other("SubKeyMissmatch".into()),
+                            at: path_string(ns, prefix),
+                        })
+                    }
+                    _ => {}
+                },
+            }
+            prefix.pop();
+        }
+        if !suppress {
+            for (k, _) in other {
+                if obj_get(def, k).is_none() {
+                    prefix.push(k.clone());
+                    out.push((WarnKind::Surplus, loc.to_string(), path_string(ns, prefix)));
+                    prefix.pop();
+                }
+            }
+        }
+        Ok(())
+    }
+    let mut out = vec![];
+    for ns in p.ns_list() {
+        let nsr = ns.as_deref();
+        let Some(def) = p.file(nsr, p.default_locale()) else { continue };
+        for loc in p.locales.iter().skip(1) {
+            let Some(o) = p.file(nsr, loc) else { continue };
+            let implicit = !suppress && !p.inherits.contains_key(loc);
+            walk(def, o, nsr, loc, implicit, suppress, &mut vec![], &mut out)?;
+        }
+    }
+    out.sort();
+    Ok(out)
+}
